@@ -653,7 +653,7 @@ func SortCases(cs []*Case) {
 // embedded), and a message with three oneof groups of mixed branch kinds.
 func F4() []*Case {
 	var out []*Case
-	sink := &dsl.Message{Name: "Root", Oneofs: []string{"Pick"}, Comment: " Root of the sink", Fields: []*dsl.Field{
+	sink := &dsl.Message{Name: "Root", Oneofs: []string{"Pick"}, Comment: " Root of the sink: the package clause and the import block must survive this comment", Fields: []*dsl.Field{
 		{Name: "Str", Num: 1, T: dsl.String, Comment: " Str is a string"},
 		{Name: "Direct", Num: 2, T: dsl.Msg, Ref: "Big", Nullable: dsl.B(false)},
 		{Name: "Opt", Num: 3, T: dsl.Msg, Ref: "Big"},
@@ -955,7 +955,7 @@ func F5File() *dsl.File {
 		return &dsl.Field{Name: name, Num: num, T: dsl.Msg, Ref: ref}
 	}
 	alpha := &dsl.Message{Name: "Alpha", Comment: " Alpha is the first root", Fields: []*dsl.Field{
-		{Name: "Name", Num: 1, T: dsl.String, Comment: " Name of alpha"},
+		{Name: "Name", Num: 1, T: dsl.String, Comment: " Name of alpha, as known to the package manager used on the node"},
 		{Name: "Namespace", Num: 8, T: dsl.String, Comment: " Namespace of alpha (its name starts with the name of Name)"},
 		msg("Meta", 2, "Shared"),
 		{Name: "Items", Num: 3, T: dsl.Msg, Ref: "Shared", Card: dsl.Repeated, Nullable: dsl.B(false)},
@@ -974,7 +974,11 @@ func F5File() *dsl.File {
 	delta := &dsl.Message{Name: "Delta", Fields: []*dsl.Field{
 		f("Only", 1, dsl.String),
 		msg("Nested", 2, "Alpha"),
-	}}
+		// a message type declared inside Delta (Go name Delta_Limits, option key Limits.<field>), used twice
+		msg("CPU", 3, "Delta.Limits"),
+		{Name: "Memory", Num: 4, T: dsl.Msg, Ref: "Delta.Limits", Nullable: dsl.B(false)},
+	}, Nested: []*dsl.Message{{Name: "Limits", Comment: " Limits is declared inside Delta", Fields: []*dsl.Field{
+		{Name: "Hard", Num: 1, T: dsl.Int64, Comment: " Hard limit"}, {Name: "Soft", Num: 2, T: dsl.Int64}, {Name: "Unit", Num: 3, T: dsl.String}}}}}
 	shared := &dsl.Message{Name: "Shared", Comment: " Shared is used everywhere", Fields: []*dsl.Field{
 		{Name: "ID", Num: 1, T: dsl.String, Comment: " ID of the thing"},
 		f("Label", 2, dsl.String),
